@@ -9,6 +9,8 @@ import (
 	"go/token"
 	"go/types"
 	"strings"
+
+	"golang.org/x/tools/go/packages"
 )
 
 func init() {
@@ -412,6 +414,164 @@ sequence holding an x was at distance 1 of itself and obiclean missed the links 
 				s.Fail(nil, key, bad, "two letters are compared through the table of IUPAC codes only: the letters that are no IUPAC code (e f i j l o p q x z) have the code 0 and 0 & 0 matches nothing, not even the letter itself — acgtxacgt against itself gives LCS (8,9) instead of (9,9), and obiclean -d 2 does not link a father and a son two substitutions apart as soon as both hold an x (status s / s instead of h / i)")
 			} else {
 				s.Pass(nil, key, sfd.Pos(), "a letter matches itself whatever its code")
+			}
+		},
+	})
+}
+
+func init() {
+	register(&Rule{
+		ID: "LC-3", Props: []string{"C09", "C13"}, Min: 2,
+		Doc: `the banded LCS kernel visits the even and the odd anti-diagonals in two copies of the same cell computation; the value of a cell of the first row (i == 0) or of the first column (j == 0) is
+a function of (i, j, endgapfree) and not of the parity of its diagonal. In pkg/obialign.FastLCSEGFScoreByte the clauses 'case i == 0' and 'case j == 0' of the two switch statements assign, for
+endgapfree true and false, the same expressions to the same variables (the clauses are evaluated: assignments, and if/else on endgapfree in either polarity). A first column initialised with
+encodeValues(0, j, …) instead of (0, i, …) on the odd diagonals only gives a wrong LCS when the shorter sequence starts with three symbols absent from the other.`,
+		Run: func(c *Ctx, s *Sink) {
+			// the kernel: the function of the package that holds the two cell computations (today fastLCSEGFScoreByte, behind its exported wrapper)
+			var fd *ast.FuncDecl
+			var p *packages.Package
+			c.EachFunc([]string{"pkg/obialign"}, func(p2 *packages.Package, fd2 *ast.FuncDecl) {
+				if !strings.Contains(fd2.Name.Name, "LCS") {
+					return
+				}
+				n := 0
+				ast.Inspect(fd2.Body, func(m ast.Node) bool {
+					if sw, ok := m.(*ast.SwitchStmt); ok && sw.Tag == nil {
+						for _, st := range sw.Body.List {
+							if cc := st.(*ast.CaseClause); len(cc.List) == 1 && types.ExprString(cc.List[0]) == "i == 0" {
+								n++
+							}
+						}
+					}
+					return true
+				})
+				if n >= 1 && fd == nil {
+					fd, p = fd2, p2
+				}
+			})
+			if fd == nil {
+				s.Undecided(nil, "pkg/obialign:LCS-kernel", 0, "no function of pkg/obialign with a 'case i == 0' boundary clause")
+				return
+			}
+			info := p.TypesInfo
+			// the switches with a clause i == 0 and a clause j == 0
+			type clauses struct{ byVar map[string]*ast.CaseClause }
+			var found []clauses
+			ast.Inspect(fd.Body, func(n ast.Node) bool {
+				sw, ok := n.(*ast.SwitchStmt)
+				if !ok || sw.Tag != nil {
+					return true
+				}
+				cl := clauses{map[string]*ast.CaseClause{}}
+				for _, st := range sw.Body.List {
+					cc := st.(*ast.CaseClause)
+					if len(cc.List) != 1 {
+						continue
+					}
+					if b, ok := ast.Unparen(cc.List[0]).(*ast.BinaryExpr); ok && b.Op == token.EQL {
+						if id, ok := ast.Unparen(b.X).(*ast.Ident); ok {
+							if v, isC := constInt(info, b.Y); isC && v == 0 && (id.Name == "i" || id.Name == "j") {
+								cl.byVar[id.Name] = cc
+							}
+						}
+					}
+				}
+				if len(cl.byVar) == 2 {
+					found = append(found, cl)
+				}
+				return true
+			})
+			if len(found) < 2 {
+				s.Undecided(nil, funcName(p, fd)+":halves", fd.Pos(), fmt.Sprintf("%d cell computations with the two boundary clauses found, 2 expected", len(found)))
+				return
+			}
+			// evaluation of a clause for one value of endgapfree
+			var eval func(list []ast.Stmt, egf bool, env map[string]string) bool
+			eval = func(list []ast.Stmt, egf bool, env map[string]string) bool {
+				for _, st := range list {
+					switch y := st.(type) {
+					case *ast.AssignStmt:
+						if len(y.Lhs) != len(y.Rhs) {
+							return false
+						}
+						for k := range y.Lhs {
+							env[types.ExprString(y.Lhs[k])] = types.ExprString(y.Rhs[k])
+						}
+					case *ast.IfStmt:
+						if y.Init != nil {
+							return false
+						}
+						cond := ast.Unparen(y.Cond)
+						neg := false
+						if u, ok := cond.(*ast.UnaryExpr); ok && u.Op == token.NOT {
+							neg, cond = true, ast.Unparen(u.X)
+						}
+						id, ok := cond.(*ast.Ident)
+						if !ok || id.Name != "endgapfree" {
+							return false
+						}
+						take := egf != neg
+						if take {
+							if !eval(y.Body.List, egf, env) {
+								return false
+							}
+						} else if y.Else != nil {
+							switch e := y.Else.(type) {
+							case *ast.BlockStmt:
+								if !eval(e.List, egf, env) {
+									return false
+								}
+							case *ast.IfStmt:
+								if !eval([]ast.Stmt{e}, egf, env) {
+									return false
+								}
+							}
+						}
+					case *ast.EmptyStmt:
+					default:
+						return false
+					}
+				}
+				return true
+			}
+			for _, v := range []string{"i", "j"} {
+				key := funcName(p, fd) + ":boundary(" + v + "==0):halves-agree"
+				ref := found[0].byVar[v]
+				ok, why := true, ""
+				for _, other := range found[1:] {
+					for _, egf := range []bool{false, true} {
+						e1, e2 := map[string]string{}, map[string]string{}
+						u1 := eval(ref.Body, egf, e1)
+						u2 := eval(other.byVar[v].Body, egf, e2)
+						if !u1 || !u2 {
+							// not a shape the evaluator knows: the texts must be the same
+							t1, t2 := "", ""
+							for _, st := range ref.Body {
+								t1 += nodeString(c.Fset, st) + "\n"
+							}
+							for _, st := range other.byVar[v].Body {
+								t2 += nodeString(c.Fset, st) + "\n"
+							}
+							if t1 != t2 {
+								ok, why = false, "the two clauses differ (and are not plain assignments under tests of endgapfree)"
+							}
+							continue
+						}
+						for k, x := range e1 {
+							if e2[k] != x {
+								ok, why = false, fmt.Sprintf("with endgapfree=%v one copy gives %s = %s, the other %s", egf, k, x, e2[k])
+							}
+						}
+						if len(e1) != len(e2) {
+							ok, why = false, "the two copies do not assign the same variables"
+						}
+					}
+				}
+				if ok {
+					s.Pass(nil, key, ref.Pos(), "the even and the odd diagonals initialise the boundary with the same expressions, for both values of endgapfree")
+				} else {
+					s.Fail(nil, key, found[1].byVar[v].Pos(), "the boundary cell is not the same function of (i, j) on the even and on the odd diagonals: "+why+" — the LCS of two sequences whose shorter one starts with three symbols absent from the other is wrong on one parity only")
+				}
 			}
 		},
 	})
